@@ -21,6 +21,20 @@ Histories          : Auth.tla also carries the verified-peer table as "key -> ad
                      themselves with their own valid introduction-requests from their own addresses), then the forgeries
                      arrive from the honest sender's, the adversary's and a third address, then the valid ones, then the
                      core forgeries again - the node is never reset, TLC follows the table through the whole trace.
+Records / residents: Auth.tla's `noted` = whatever an overlay keeps about a key outside the verified-peer table.  A RESIDENT
+                     receiving node is one of four real nodes that ran the protocol scenario among themselves (routing
+                     table, stored values and peers, tokens, request caches as the real code left them); the network
+                     then falls silent and the mutation families of the datagrams it had received arrive, and once more
+                     after 65 s of virtual time (timeouts fired).  harness/c01_notes.py reads every Peer / Node object
+                     and every container entry filed under a key (serialized key, mid, node id) from the live object
+                     graph before and after every delivery: deliver.touched.  Drop demands touched = {} (RejectInert),
+                     a handler-less change for an authenticated id is a Run that needs a valid signature (NotesLegit).
+Key memory / crowds: Auth.tla's `kres` = what the serialized form of a key resolves to (ECCrypto.key_from_public_bin);
+                     KeyResolution: the identity, whatever was parsed before.  A CROWD session: introductions, then
+                     thousands of valid copies of a capture under ever new keys of the adversary's, then the capture
+                     (naming the honest key) and its copies (naming the previous key of the crowd) signed with every
+                     key of the crowd; `probe` events log what the known keys resolve to.  The keys of a crowd share
+                     the abstract names c0..c3 (a quotient: signer and carried key of one datagram never share one).
 """
 from __future__ import annotations
 
@@ -42,6 +56,7 @@ CLASS_NAMES = ["DiscoveryCommunity", "DHTCommunity", "DHTDiscoveryCommunity", "T
                "HiddenTunnelCommunity", "PexCommunity", "IdentityCommunity", "AttestationCommunity"]
 MC_ACTIONS = ["Send", "InjectAny", "Noop", "FlipPrefix", "FlipMsgId", "FlipKey", "SubstKeyKeepSig", "FlipBody",
               "FlipSig", "Truncate", "StripAuth", "Extend", "Resign", "SpliceBody", "SpliceSig", "Run", "Drop"]
+CROWD_ACTIONS = ["Send", "InjectAny", "Run", "Drop", "Acquaint", "Restart"]
 HIST_ACTIONS = ["Send", "InjectAny", "Noop", "FlipKey", "SubstKeyKeepSig", "FlipSig", "Resign", "Run", "Drop",
                 "Acquaint", "Restart"]
 NO_CONTENT = {"prefix": "p?", "msgid": 256, "key": "nokey", "body": "b?"}
@@ -181,31 +196,80 @@ class Receiver:
             self.ov.network.add_verified_peer(p)
             self.ov.network.discover_services(p, [self.ov.community_id])
         self.builds += 1
+        self._tables_now = self._records_now = None
+
+    def tables(self):
+        """-> (keys of the verified peers, the verified-peer table as {key bin: frozenset of (ip, port)}: where the
+        node believes each key lives) in one pass over the real Network"""
+        from ..c01_notes import keybin
+        nw = self.ov.network
+        ver = set(nw.verified_by_public_key_bin)
+        out, seen = {}, set()
+        for src in (nw.verified_peers, list(nw.verified_by_public_key_bin.values())):
+            for p in list(src):
+                if id(p) in seen:
+                    continue
+                seen.add(id(p))
+                kb = keybin(p.public_key)
+                ver.add(kb)
+                addrs = set(p.addresses.values())
+                pref = p.address
+                if pref != ("0.0.0.0", 0):
+                    addrs.add(pref)
+                prev = out.get(kb)
+                out[kb] = frozenset(addrs) if prev is None else prev | addrs
+        return ver, out
 
     def verified(self):
-        nw = self.ov.network
-        return set(nw.verified_by_public_key_bin) | {p.public_key.key_to_bin() for p in nw.verified_peers}
+        return self.tables()[0]
 
     def book(self):
-        """The verified-peer table as {key bin: frozenset of (ip, port)}: where the node believes each key lives."""
-        nw = self.ov.network
-        out = {}
-        for p in list(nw.verified_peers) + list(nw.verified_by_public_key_bin.values()):
-            addrs = {tuple(a) for a in p.addresses.values()}
-            pref = tuple(p.address)
-            if pref != ("0.0.0.0", 0):
-                addrs.add(pref)
-            kb = p.public_key.key_to_bin()
-            out[kb] = frozenset(addrs) | out.get(kb, frozenset())
-        return out
+        return self.tables()[1]
 
-    def deliver(self, data, src, keep=False):
-        """-> dict(entered: [(handler name, peer)], sent: n, newv: [key bins], crashed: str|None, book: table after)
+    def records(self):
+        """What the overlay keeps about each key anywhere in its object graph: {key name: digest} (c01_notes)."""
+        from .. import c01_notes
+        names = dict(self.w.keyname)
+        for kb in self.w.strangers.values():
+            names.setdefault(kb, "kx")
+        # lazily maintained, derived data (Network.reverse_service_lookup: "cache of service_id -> [Peer]") is brought
+        # up to date through the public read API first: a handler that merely READS the peers must not look like a change
+        nw = self.ov.network
+        for service in list(getattr(nw, "reverse_service_lookup", ())):
+            nw.get_peers_for_service(service)
+        return c01_notes.key_records(self.ov, names)
+
+    def deliver(self, data, src, keep=False, notes=False):
+        """-> dict(entered: [(handler name, peer)], sent: n, newv: [key bins], crashed: str|None, book: table after,
+        touched: [key names whose records differ before / after]  (only with notes=True))
         keep = the receiver lives on with whatever the delivery did to it (sessions: histories of deliveries)"""
+        n0 = None
+        if notes:
+            # Every fourth delivery gets an instant of its own (a record that is stamped with the current time must
+            # show).  What ANY arrival from this source address does, whatever its bytes (Community.on_packet refreshes
+            # the liveness of the peer known at the address), is not an effect of the datagram: its first 22 bytes
+            # alone (the prefix that routes it to the overlay, nothing else) arrive from the same address first.
+            # (Same address, same prefix and same instant as the last delivery: that has happened already.)
+            self._nnotes = getattr(self, "_nnotes", 0) + 1
+            if self._nnotes % 4 == 1:
+                self.w.loop._vt += 0.001
+            mark = (tuple(src), bytes(data[:22]), self.w.loop.time())
+            if getattr(self, "_records_now", None) is None or self._records_mark != mark:
+                try:
+                    self.node.sim_endpoint.notify_listeners((self.w.simnet.UDPv4Address(*src), bytes(data[:22])))
+                except Exception:  # noqa: BLE001
+                    pass
+                if self.w.loop._ready:
+                    self.w.loop.settle()
+                self._records_now = self.records()
+                self._tables_now = None
+            n0 = self._records_now
         del SPYLOG[:]
         w0 = len(self.net.wire)
-        v0 = self.verified()
-        b0 = self.book()
+        if keep and getattr(self, "_tables_now", None) is not None:
+            v0, b0 = self._tables_now      # (a node that lives on: nothing happened to it since the last delivery)
+        else:
+            v0, b0 = self.tables()
         crashed = None
         try:
             self.node.sim_endpoint.notify_listeners((self.w.simnet.UDPv4Address(*src), bytes(data)))
@@ -215,9 +279,15 @@ class Receiver:
             self.w.loop.settle()
         entered = [(name, peer) for (o, name, peer) in SPYLOG if o is self.ov]
         sent = len(self.net.wire) - w0
-        newv = sorted(self.verified() - v0)
-        b1 = self.book()
-        out = {"entered": entered, "sent": sent, "newv": newv, "crashed": crashed, "book": b1, "rebuilt": False}
+        v1, b1 = self._tables_now = self.tables()
+        newv = sorted(v1 - v0)
+        out = {"entered": entered, "sent": sent, "newv": newv, "crashed": crashed, "book": b1, "rebuilt": False,
+               "touched": []}
+        if notes:
+            from .. import c01_notes
+            n1 = self._records_now = self.records()
+            self._records_mark = (tuple(src), bytes(data[:22]), self.w.loop.time())
+            out["touched"] = c01_notes.touched(n0, n1)
         if (entered or sent or newv or SPYLOG or b1 != b0) and not keep:
             self.build()      # never reuse a receiver whose state a delivery has touched
             out["rebuilt"] = True
@@ -225,6 +295,23 @@ class Receiver:
 
     def close(self):
         self.w.loop.run_until_complete(self.ov.unload())
+
+
+class Resident(Receiver):
+    """A receiving node that took part in the protocol scenario itself (routing table, stored peers, tokens, request
+    caches ... as the real code left them).  It is never rebuilt."""
+
+    def __init__(self, world, cname, node, net):
+        self.w, self.cname, self.acquainted = world, cname, ()
+        self.node, self.net, self.ov = node, net, node.overlay
+        self.builds = 1
+        self.spyable = install_spies(self.ov)
+
+    def build(self):
+        raise MachineryError("a resident receiving node cannot be rebuilt")
+
+    def close(self):
+        pass
 
 
 # =====================================================================================================
@@ -396,6 +483,124 @@ def capture_corpus(world, cname, auth_ids, per_id):
     return chosen, pool, intros
 
 
+RESIDENT_SILENCE = 65      # seconds of virtual time without any traffic before the forgeries arrive a second time
+CROWD = {"quick": 2200, "thorough": 9000}      # keys in a crowd (a history longer than any memory of 2048 / 8192 keys)
+CROWD_SHORT = 200          # keys in a crowd around a message that puts every one of them into the verified-peer table
+CROWD_NAMES = 4            # the keys of a crowd share the abstract names c0..c3 (neighbours never share one)
+
+
+def resident_world(w, cname, auth_ids):
+    """Four real nodes - h1, h2, h3 and the receiving node (key rcv) - run the protocol scenario among themselves.
+    -> (Resident, {msgid: Capture sent to the receiving node by an honest one (or packed by h1's overlay)}, pool)"""
+    import asyncio
+    cls, kw = w.classes[cname], w.kwargs.get(cname, {})
+    net = w.new_net()
+    ns = []
+    for kn in ("h1", "h2", "h3", "rcv"):
+        n = w.nodes.Node(net, key=w.keys[kn])
+        n.add(cls, **kw)
+        ns.append(n)
+
+    async def scenario():
+        w.nodes.introduce_all(ns)
+        await asyncio.sleep(1)
+        for x in range(4):
+            for y in range(4):
+                if x != y:
+                    ox = ns[x].overlay
+                    ox.endpoint.send(ns[y].address, ox.create_introduction_request(ns[y].address, new_style=True))
+        await asyncio.sleep(1)
+        if cname in ("DHTCommunity", "DHTDiscoveryCommunity"):
+            for i, n in enumerate(ns):
+                try:
+                    await n.overlay.store_value(bytes([107 + i]) * 20, b"value-%d" % i, sign=True)
+                    await n.overlay.find_values(bytes([107 + i]) * 20)
+                except Exception:  # noqa: BLE001
+                    pass
+            if cname == "DHTDiscoveryCommunity":
+                for n in ns:
+                    try:
+                        await n.overlay.store_peer()
+                    except Exception:  # noqa: BLE001
+                        pass
+                for n in ns:
+                    for m in ns:
+                        if n is not m:
+                            try:
+                                await n.overlay.connect_peer(m.overlay.my_peer.mid)
+                            except Exception:  # noqa: BLE001
+                                pass
+        await asyncio.sleep(1)
+
+    w.loop.run_until_complete(scenario())
+    net.policy = lambda dg: []            # from now on nobody hears anybody: the forgeries are all that arrives
+    rnode = ns[3]
+    sender_of = {n.sim_endpoint: kn for n, kn in zip(ns, ("h1", "h2", "h3"))}
+    prefix = rnode.overlay.get_prefix()
+    by_id = {}
+    for dg in net.wire:
+        if dg.data[:22] == prefix and len(dg.data) > 23 and dg.data[22] in auth_ids and dg.sender in sender_of \
+                and tuple(dg.dst) == tuple(rnode.address):
+            by_id.setdefault(dg.data[22], []).append(
+                Capture(cname, dg.data[22], dg.data, tuple(dg.src), sender_of[dg.sender], "captured"))
+    syn = synth_table(w, cname)
+    for mid in sorted(auth_ids):
+        if mid not in by_id and mid in syn:
+            n = ns[mid % 3]
+            try:
+                data = syn[mid](n.overlay)
+            except Exception as e:  # noqa: BLE001
+                raise MachineryError("cannot pack message %d of %s: %r" % (mid, cname, e)) from e
+            by_id[mid] = [Capture(cname, mid, data, tuple(n.address), ("h1", "h2", "h3")[mid % 3], "synthesised")]
+    pool = [cp for caps in by_id.values() for cp in caps]
+    caps = {}
+    for mid, cs in by_id.items():      # the last one an honest node sent (its request cache may still be open)
+        caps[mid] = cs[-1]
+    return Resident(w, cname, rnode, net), caps, pool
+
+
+def crowd_plan(w, cap, intros, size, register=True):
+    """-> (history, deliveries) of a crowd session around one capture: the honest sender and the adversary introduce
+    themselves; `size` valid copies of the capture arrive, each under a new key of the adversary's; then, signed with
+    every key of the crowd in turn, the capture itself (it names the honest sender's key) and the copy that names the
+    previous key of the crowd; the key vault is asked what the known keys resolve to before and after."""
+    d = cap.data
+    p = parse(d)
+    n, bs, S = p.n, p.bstart, p.siglen
+    nacl = p.keybytes.startswith(b"LibNaCLPK:")
+    att = "att" if nacl else "att2"
+    keys = [w.ec.generate_key("curve25519" if nacl else "very-low") for _ in range(size)]
+    bins = [k.pub().key_to_bin() for k in keys]
+    for i, kb in enumerate(bins):
+        if register:
+            w.keyname[kb] = "c%d" % (i % CROWD_NAMES)
+    history = [["send", intros[cap.sender][0].hex(), list(cap.src)],
+               ["inject", intros[att][0].hex(), list(ATTACKER_SRC)]]
+    known = [w.pubs[kn].hex() for kn in ("h1", "h2", "h3", "rcv", "att", "att2")]
+    subs = [d[:23] + varlen_key(kb) + d[bs:n - S] for kb in bins]
+    hints = ["pk:" + kb.hex() for kb in bins]
+    src = list(ATTACKER_SRC)
+    out = [["probe", known]]
+    for i, k in enumerate(keys):          # the crowd: valid datagrams, each signed by the key it carries
+        out.append([[["SubstKeyKeepSig", (subs[i] + d[n - S:]).hex(), None],
+                     ["Resign", (subs[i] + k.signature(subs[i])).hex(), hints[i]]], src])
+        if i == size // 2:                # in between the honest sender is heard again
+            out.append([[["Noop", d.hex(), None]], list(cap.src)])
+    for i, k in enumerate(keys):          # the honest sender's key in the datagram, a key of the crowd under it
+        out.append([[["Resign", (d[:n - S] + k.signature(d[:n - S])).hex(), hints[i]]],
+                    src if i % 2 else list(cap.src)])
+    for i, k in enumerate(keys):          # the previous key of the crowd in the datagram, this one under it
+        j = i - 1 if i else size - 1
+        if j % CROWD_NAMES == i % CROWD_NAMES or (i % 8 and i < size - 64):      # (a sample, and the latest 64)
+            continue
+        out.append([[["SubstKeyKeepSig", (subs[j] + d[n - S:]).hex(), None],
+                     ["Resign", (subs[j] + k.signature(subs[j])).hex(), hints[i]]], src])
+    out.append(["probe", known])
+    out.append([[["Noop", d.hex(), None]], list(cap.src)])
+    out.append([[["Resign", (d[:n - S] + w.keys[att].signature(d[:n - S])).hex(), att]], src])
+    return history, out
+
+
 # =====================================================================================================
 # the driver's own reading of a datagram (independent of lazy_community / keyvault)
 # =====================================================================================================
@@ -497,7 +702,12 @@ class Abstractor:
                     sig = d["sig"]                                            # the unchanged signature of a known datagram
                     break
         if sig is None and signer_hint is not None:                            # the adversary says who signed: confirm
-            pk = rust_key(self.w.pubs[signer_hint])
+            if signer_hint.startswith("pk:"):                                  # (one key of a crowd: its serialized form)
+                pkbin = bytes.fromhex(signer_hint[3:])
+                signer_hint = self.w.keyname[pkbin]
+            else:
+                pkbin = self.w.pubs[signer_hint]
+            pk = rust_key(pkbin)
             if verifies(pk, data, pk.get_signature_length()):
                 sig = {"kind": "sig", "signer": signer_hint, "covers": dict(c)}
         if sig is None:
@@ -652,16 +862,18 @@ def observe(ab, steps, final, res, target, auth_table, src):
     newv = [ab.w.keyname.get(kb) or ("kx" if kb == parse(final).keybytes else "ky") for kb in res["newv"]]
     entered = bool(res["entered"])
     peer = "nokey"
+    touched = sorted(set(res.get("touched") or ()))
     if res["entered"]:
         peer = ab.peername(res["entered"][0][1], final)
-    elif is_auth and (res["sent"] or newv):
-        # hand-written handler (no decorated inner function): its effects show that it ran
+    elif is_auth and (res["sent"] or newv or touched):
+        # hand-written handler (no decorated inner function), or code that runs before the decorated function is
+        # reached: its effects (datagrams sent, verified peers, records kept about a key) show that it ran
         entered = True
         peer = newv[0] if newv else dfin["key"]
-    elif not is_auth and (res["sent"] or newv):
+    elif not is_auth and (res["sent"] or newv or touched):
         entered = True
     return steps_ev, {"k": "deliver", "o": target, "entered": entered, "peer": peer, "newv": newv,
-                      "src": ab.addrname(src), "book": ab.bookabs(res["book"], final)}
+                      "src": ab.addrname(src), "book": ab.bookabs(res["book"], final), "touched": touched}
 
 
 def abs_valid(d):
@@ -690,7 +902,7 @@ def head_events(ab, cname, donor_cname, acquainted=()):
 def full(e, target, frm="cur"):
     e = dict(e)
     for k, v in (("o", target), ("entered", False), ("peer", "nokey"), ("newv", []), ("name", ""), ("from", frm),
-                 ("src", "a_x"), ("book", []), ("key", "nokey"), ("d", BLANK)):
+                 ("src", "a_x"), ("book", []), ("key", "nokey"), ("d", BLANK), ("touched", []), ("kres", [])):
         e.setdefault(k, v)
     return e
 
@@ -698,10 +910,34 @@ def full(e, target, frm="cur"):
 # =====================================================================================================
 # session: a history of deliveries to ONE receiving node, then forged input (state is never reset)
 # =====================================================================================================
-def run_session(w, cname, ab, donor_cname, history, deliveries, auth_table, stats=None):
+class StrangersInTable(Exception):
+    """The verified-peer table of a resident node holds keys that nobody in the scenario owns."""
+
+
+def probe_keys(w, ab, keybins):
+    """Ask the real key vault what each serialized key resolves to (variable kres of Auth.tla): [[name, name of the
+    key object that ECCrypto.key_from_public_bin returns], ...]"""
+    out = []
+    for kb in keybins:
+        nm = w.keyname.get(kb)
+        if nm is None:
+            continue
+        try:
+            got = w.ec.key_from_public_bin(kb).key_to_bin()
+        except Exception:  # noqa: BLE001
+            continue
+        out.append([nm, nm if got == kb else w.keyname.get(got, "ky")])
+    return out
+
+
+def run_session(w, cname, ab, donor_cname, history, deliveries, auth_table, stats=None, rcv=None, notes=True):
     """history: [[kind "send"|"inject", datagram hex, src]] valid datagrams that make their senders verified peers;
-    deliveries: [[[[mutation, hex, signer hint], ...], src]].  -> (events of one trace, one record per delivery)"""
-    rcv = Receiver(w, cname)
+    deliveries: [[[[mutation, hex, signer hint], ...], src]] or ["probe", [key hex, ...]] (what do these serialized
+    keys resolve to now?).  rcv = a resident receiving node (its verified-peer table as it stands is the history:
+    acquaintances).  -> (events of one trace, one record per delivery)"""
+    own = rcv is None
+    if own:
+        rcv = Receiver(w, cname)
     events, records = [], []
     try:
         for kind, hx, src in history:
@@ -709,20 +945,33 @@ def run_session(w, cname, ab, donor_cname, history, deliveries, auth_table, stat
             d = ab.abstract(data)
             if not abs_valid(d) or (kind == "send") != (d["key"] in ("h1", "h2", "h3")):
                 raise MachineryError("session history of %s: %s of a datagram that is not a valid one: %s" % (cname, kind, d))
-            res = rcv.deliver(data, tuple(src), keep=True)
+            res = rcv.deliver(data, tuple(src), keep=True, notes=notes)
             _steps, dev = observe(ab, [("Noop", data, None)], data, res, cname, auth_table, tuple(src))
             if [d["key"], ab.addrname(src)] not in dev["book"] or not dev["entered"]:
                 raise MachineryError("session history of %s: the valid introduction-request of %s did not make him a "
                                      "verified peer at his address: %s" % (cname, d["key"], dev))
             events.append(full({"k": kind, "d": d}, cname, "base"))
             events.append(full(dict(dev, d=d), cname))
-        book_now = events[-1]["book"]
-        events += head_events(ab, cname, donor_cname)
+        acq = []
+        if not own:
+            acq = [(cname, k, a) for (k, a) in ab.bookabs(rcv.book())]
+            if any(k not in ("h1", "h2", "h3", "att", "att2") for (_o, k, _a) in acq):
+                # (only on a tree that breaks the property: an earlier trace of this node shows how they got in)
+                raise StrangersInTable("resident node of %s knows keys outside the scenario: %s" % (cname, acq))
+        book_now = events[-1]["book"] if events else sorted([k, a] for (_o, k, a) in acq)
+        events += head_events(ab, cname, donor_cname, acq)
         seen = {}
-        for pos, (steps_hex, src) in enumerate(deliveries):
+        for pos, item in enumerate(deliveries):
+            if item[0] == "probe":
+                pairs = probe_keys(w, ab, [bytes.fromhex(hx) for hx in item[1]])
+                records.append({"probe": pairs, "emitted": True, "first_event": len(events) + 1, "n_events": 1,
+                                "book_before": book_now, "mname": "probe"})
+                events.append(full({"k": "probe", "kres": pairs}, cname))
+                continue
+            steps_hex, src = item
             steps = [(nm, bytes.fromhex(hx), hint) for nm, hx, hint in steps_hex]
             final = steps[-1][1]
-            res = rcv.deliver(final, tuple(src), keep=True)
+            res = rcv.deliver(final, tuple(src), keep=True, notes=notes)
             steps_ev, dev = observe(ab, steps, final, res, cname, auth_table, tuple(src))
             mname = "+".join(st[0] for st in steps)
             rec = {"dev": dev, "res": res, "mname": mname, "final": final, "dfin": steps_ev[-1]["d"],
@@ -746,7 +995,8 @@ def run_session(w, cname, ab, donor_cname, history, deliveries, auth_table, stat
             book_now = dev["book"]
             records.append(rec)
     finally:
-        rcv.close()
+        if own:
+            rcv.close()
     return events, records
 
 
@@ -755,7 +1005,8 @@ def run_session(w, cname, ab, donor_cname, history, deliveries, auth_table, stat
 # =====================================================================================================
 def class_job(args):
     cname, tier, seed, auth_table, prefix_table, sabotage, limit_ids = args[:7]
-    families = args[7] if len(args) > 7 else ("fresh", "acquainted", "session")
+    families = args[7] if len(args) > 7 else ("fresh", "acquainted", "session", "resident")
+    options = args[8] if len(args) > 8 else {}
     w = World()
     w.make_keys()
     rng = random.Random("%s-%s" % (seed, cname))
@@ -793,6 +1044,30 @@ def class_job(args):
                 known.add_address(w.simnet.UDPv4Address("9.9.9.9", 9999))
             return orig(self, auth, data)
         EZPackOverlay._verify_signature = early_book
+    if sabotage == "earlynote":    # negative control on the REAL code: what the node records about the carried key
+        from ipv8.lazy_community import EZPackOverlay      # (a liveness metric) is refreshed before the verdict is known
+        orig = EZPackOverlay._verify_signature
+
+        def early_note(self, auth, data):
+            known = self.network.verified_by_public_key_bin.get(auth.public_key_bin)
+            if known:
+                known.last_response += 1
+            return orig(self, auth, data)
+        EZPackOverlay._verify_signature = early_note
+    if sabotage == "stalekeys":    # negative control on the REAL code: a ring of 64 parsed keys whose index is never
+        from ipv8.keyvault.crypto import ECCrypto          # cleaned up (the bytes of an overwritten key keep their slot)
+        orig_parse = ECCrypto.key_from_public_bin
+        ring, index, head = [None] * 64, {}, [0]
+
+        def stale_parse(self, string):
+            slot = index.get(string)
+            if slot is None:
+                slot = head[0]
+                head[0] = (slot + 1) % len(ring)
+                ring[slot] = orig_parse(self, string)
+                index[string] = slot
+            return ring[slot]
+        ECCrypto.key_from_public_bin = stale_parse
     receivers = {}
 
     def receiver(cn, state, cap):
@@ -815,7 +1090,35 @@ def class_job(args):
     other_prefixes = {cn: w.prefix_of(cn) for cn in CLASS_NAMES if cn != cname}
     traces, examples = [], []
 
-    for mid in sorted(chosen):
+    def file_session(state, mid, events, records, deliveries, meta):
+        """one trace of a receiving node that lives through all its deliveries + one example per distinct event"""
+        for pos, rec in enumerate(records):
+            if not rec["emitted"]:
+                examples[records[rec["same_as"]]["example"]]["count"] += 1
+                continue
+            rec["example"] = len(examples)
+            if "probe" in rec:
+                examples.append({"overlay": cname, "capture_overlay": cname, "msgid": mid, "state": state,
+                                 "mutation": "probe", "datagram": "", "src": [], "count": 1,
+                                 "observed": {"key_resolution": rec["probe"]}, "abstract": {"msgid": mid},
+                                 "acquainted": False, "first_event": rec["first_event"], "steps": [],
+                                 "n_events": 1, "trace": len(traces), "session_pos": pos})
+                continue
+            dev, res = rec["dev"], rec["res"]
+            examples.append({"overlay": cname, "capture_overlay": cname, "msgid": mid, "state": state,
+                             "mutation": rec["mname"], "datagram": rec["final"].hex(), "src": deliveries[pos][1],
+                             "count": 1,
+                             "observed": {"entered": [e[0] for e in res["entered"]], "sent": res["sent"],
+                                          "new_verified": dev["newv"], "peer": dev["peer"], "src": dev["src"],
+                                          "verified_peer_table": dev["book"],
+                                          "verified_peer_table_before": rec["book_before"],
+                                          "records_changed": dev["touched"]},
+                             "abstract": rec["dfin"], "acquainted": False, "first_event": rec["first_event"],
+                             "steps": deliveries[pos][0], "n_events": rec["n_events"], "trace": len(traces),
+                             "session_pos": pos})
+        traces.append({"overlay": cname, "msgid": mid, "state": state, "events": events, "meta": meta})
+
+    for mid in sorted(chosen) if set(families) & {"fresh", "acquainted", "session"} else ():
         for ci, cap in enumerate(chosen[mid]):
             stats[cap.origin == "captured" and "captured" or "synthesised"].setdefault(str(mid), 0)
             stats[cap.origin == "captured" and "captured" or "synthesised"][str(mid)] += 1
@@ -891,25 +1194,93 @@ def class_job(args):
             recs = [r for r in recs if not r.valid] + [r for r in recs if r.valid] + [r for r in recs if r.core]
             deliveries = [[[[nm, dt.hex(), hint] for (nm, dt, hint) in r.steps], list(src_addr(r.src, cap))] for r in recs]
             events, records = run_session(w, cname, ab, donor.cname if donor else cname, history, deliveries,
-                                          auth_table, stats)
-            for pos, rec in enumerate(records):
-                if not rec["emitted"]:
-                    examples[records[rec["same_as"]]["example"]]["count"] += 1
-                    continue
-                dev, res = rec["dev"], rec["res"]
-                rec["example"] = len(examples)
-                examples.append({"overlay": cname, "capture_overlay": cname, "msgid": mid, "state": "session",
-                                 "mutation": rec["mname"], "datagram": rec["final"].hex(), "src": deliveries[pos][1],
-                                 "count": 1,
-                                 "observed": {"entered": [e[0] for e in res["entered"]], "sent": res["sent"],
-                                              "new_verified": dev["newv"], "peer": dev["peer"], "src": dev["src"],
-                                              "verified_peer_table": dev["book"],
-                                              "verified_peer_table_before": rec["book_before"]},
-                                 "abstract": rec["dfin"], "acquainted": False, "first_event": rec["first_event"],
-                                 "steps": deliveries[pos][0], "n_events": rec["n_events"], "trace": len(traces),
-                                 "session_pos": pos})
-            traces.append({"overlay": cname, "msgid": mid, "state": "session", "events": events,
-                           "meta": dict(meta, history=history, session_deliveries=deliveries)})
+                                          auth_table, stats, notes=tier != "quick")
+            file_session("session", mid, events, records, deliveries,
+                         dict(meta, history=history, session_deliveries=deliveries))
+
+    # ---- residents: the receiving node took part in the protocol scenario itself (four real nodes: routing table,
+    # stored peers, tokens, request caches as the real code left them), then the forgeries arrive; once more after
+    # a minute of silence (timeouts have fired).  Everything the node records about any key is compared before and
+    # after every delivery (deliver.touched / variable `noted` of Auth.tla).
+    if "resident" in families:
+        res_rcv, res_caps, res_pool = resident_world(w, cname, auth_ids)
+        plan = [(mid, cap, False) for mid, cap in sorted(res_caps.items())]
+        plan += [(mid, cap, True) for mid, cap in sorted(res_caps.items())]
+        for mid, cap, late in plan:
+            if late and not stats.get("resident_silence"):
+                w.loop.advance(RESIDENT_SILENCE)
+                res_rcv._tables_now = res_rcv._records_now = None
+                stats["resident_silence"] = RESIDENT_SILENCE
+            donors = [x for x in res_pool if x.data != cap.data and x.sender != cap.sender] or \
+                     [x for x in res_pool if x.data != cap.data]
+            same = [x for x in donors if x.msgid == cap.msgid]
+            donor = (same or donors or [None])[rng.randrange(len(same or donors or [None]))]
+            ab = Abstractor(w, prefix_names, cap.data, donor.data if donor else None, cap.src)
+            meta = {"base": cap.data.hex(), "base_src": list(cap.src), "sender": cap.sender, "origin": cap.origin,
+                    "donor": donor.data.hex() if donor else None, "donor_overlay": cname,
+                    "keys": {kb.hex(): kn for kb, kn in w.keyname.items()},
+                    "strangers": [kb.hex() for kb in w.strangers.values()], "seed": seed, "tier": tier}
+            recs = mutations(w, cap, donor, tier, rng, "resident", other_prefixes, registered, True,
+                             step=48 if tier == "quick" else 8)
+            if late:
+                recs = [r for r in recs if r.core or r.steps[-1][0] == "Resign"]
+            else:
+                recs = [r for r in recs if not r.valid] + [r for r in recs if r.valid] + [r for r in recs if r.core]
+            deliveries = [[[[nm, dt.hex(), hint] for (nm, dt, hint) in r.steps], list(src_addr(r.src, cap))] for r in recs]
+            try:
+                events, records = run_session(w, cname, ab, cname, [], deliveries, auth_table, stats, rcv=res_rcv)
+            except StrangersInTable as e:
+                stats["resident_stopped"] = str(e)      # the traces so far are judged; no verdict without a violation
+                break
+            stats["resident_deliveries"] = stats.get("resident_deliveries", 0) + len(deliveries)
+            file_session("resident", mid, events, records, deliveries, dict(meta, late=late))
+
+    # ---- crowds: a long history of valid datagrams under ever new keys (all of them the adversary's), then datagrams
+    # that carry the honest sender's key - or the previous key of the crowd - signed with each key of the crowd
+    if "crowd" in families:
+        order = sorted(chosen)
+        first = options.get("crowd_first", order[0])
+        order = [m for m in order if m >= first] + [m for m in order if m < first]
+
+        def crowd_cap(mid):
+            return ([cp for cp in chosen[mid] if cp.sender != "h2"] or chosen[mid])[0]
+
+        def grows(mid):
+            """does a valid copy of this message under a new key enter the verified-peer table? (three new keys)"""
+            cap = crowd_cap(mid)
+            _h, dl = crowd_plan(w, cap, intros, 3, register=False)
+            rcv = Receiver(w, cname)
+            try:
+                for item in dl:
+                    if item[0] != "probe" and item[0][-1][0] == "Resign" and len(item[0]) == 2:
+                        rcv.deliver(bytes.fromhex(item[0][-1][1]), tuple(item[1]), keep=True)
+                return len(rcv.book()) > 0
+            finally:
+                rcv.close()
+
+        # the long crowd goes around the first message (from the seed's choice on) that leaves the table alone - reading
+        # a table of thousands of entries after every delivery is quadratic -, a short one around the seed's choice
+        size = options.get("crowd") or CROWD[tier]
+        plan = []
+        if grows(order[0]):
+            plan.append((order[0], min(size, CROWD_SHORT)))
+            calm = next((m for m in order[1:] if not grows(m)), None)
+            if calm is not None:
+                plan.append((calm, size))
+        else:
+            plan.append((order[0], size))
+        for mid, n_keys in plan:
+            cap = crowd_cap(mid)
+            ab = Abstractor(w, prefix_names, cap.data, None, cap.src)
+            meta = {"base": cap.data.hex(), "base_src": list(cap.src), "sender": cap.sender, "origin": cap.origin,
+                    "donor": None, "donor_overlay": cname, "strangers": [kb.hex() for kb in w.strangers.values()],
+                    "seed": seed, "tier": tier, "crowd": n_keys}
+            history, deliveries = crowd_plan(w, cap, intros, n_keys)
+            meta["keys"] = {kb.hex(): kn for kb, kn in w.keyname.items() if not kn.startswith("c")}
+            events, records = run_session(w, cname, ab, cname, history, deliveries, auth_table, stats, notes=False)
+            stats["crowd_deliveries"] = stats.get("crowd_deliveries", 0) + len(deliveries)
+            stats.setdefault("crowds", []).append([mid, n_keys])
+            file_session("crowd", mid, events, records, deliveries, dict(meta, history=history))
     for rcv in receivers.values():
         rcv.close()
     stats["receiver_builds"] = sum(r.builds for r in receivers.values())
@@ -1012,6 +1383,10 @@ def merge_parts(parts):
         a, b = r["stats"], p["stats"]
         for k in ("deliveries", "entered", "crashes", "receiver_builds", "session_deliveries"):
             a[k] += b[k]
+        for k in ("resident_deliveries", "crowd_deliveries"):
+            a[k] = a.get(k, 0) + b.get(k, 0)
+        if b.get("resident_stopped"):
+            a["resident_stopped"] = b["resident_stopped"]
         for k in ("baseline_entered", "captured", "synthesised"):
             for i, v in b[k].items():
                 a[k][i] = a[k].get(i, 0) + v
@@ -1029,6 +1404,22 @@ def describe(ex, ev, violated):
     if not ex:
         return "event", "rejected deliver event %s" % ev
     obs = ex["observed"]
+    if ev["k"] == "probe":
+        wrong = [q for q in ev["kres"] if q[0] != q[1]]
+        return "%s:%s:keymemory" % (ex["overlay"], ex["abstract"]["msgid"]), (
+            "after a long history of valid datagrams under many different keys (a crowd of the adversary's keys, "
+            "receiving overlay %s) ECCrypto.key_from_public_bin resolves the serialized key of %s to the key object of "
+            "another key (%s): Auth.tla demands kres[k] = k whatever was parsed before (KeyResolution) - signatures "
+            "made by that other key will be accepted for datagrams that carry this one [%s]" % (
+                ex["overlay"], [q[0] for q in wrong], wrong, violated))
+    if ex["state"] in ("resident", "session") and obs.get("records_changed") and not obs.get("entered"):
+        return "%s:%s:%s:records" % (ex["overlay"], ex["abstract"]["msgid"], ex["mutation"]), (
+            "a datagram (%s of message %d) without a valid signature of the key it carries changed what %s records about "
+            "%s (receiving node in state '%s': every Peer / Node object and every entry filed under a key, anywhere "
+            "in the overlay, compared before and after; no decorated handler function was entered) - code of an "
+            "authenticated handler ran with effect before the verdict on the signature: abstract datagram %s, observed %s "
+            "[%s]" % (ex["mutation"], ex["abstract"]["msgid"], ex["overlay"], obs["records_changed"], ex["state"],
+                      json.dumps(ex["abstract"], sort_keys=True), json.dumps(obs, sort_keys=True), violated))
     tail = "abstract datagram %s, receiver state %s, observed %s [%s]" % (
         json.dumps(ex["abstract"], sort_keys=True), ex["state"], json.dumps(obs, sort_keys=True), violated)
     sig = "%s:%s:%s" % (ex["overlay"], ex["abstract"]["msgid"], ex["mutation"])
@@ -1135,7 +1526,11 @@ def run(tier, seed, replay=None):
                        "distinct (overlay class, message id, receiver state, mutation, abstract datagram, outcome) groups; "
                        "every deliver event carries the source address and the verified-peer table (key -> addresses) "
                        "read from the real Network afterwards; sessions = histories of deliveries into one receiving "
-                       "node (honest and adversarial introductions first, forged input afterwards)")
+                       "node (honest and adversarial introductions first, forged input afterwards); residents = the "
+                       "receiving node took part in a protocol scenario of four real nodes, every record it keeps about "
+                       "any key is compared before / after each delivery (deliver.touched), forgeries arrive again after "
+                       "65 s of silence; crowds = thousands of valid datagrams under new keys, then forgeries signed by "
+                       "each of them (+ probes of ECCrypto.key_from_public_bin: kres)")
     ctx.assumptions += ["signature primitives of ipv8_rust_tunnels are trusted (used directly by the driver to decide validity)",
                         "mutations are the finite family listed in DESIGN.md over real captures, not all byte strings",
                         "entry of hand-written handlers (no decorated inner function: DiscoveryCommunity 246) is "
@@ -1144,8 +1539,21 @@ def run(tier, seed, replay=None):
                         "addresses are abstracted to three names (the honest sender's, the adversary's, any other): a "
                         "change between two 'other' addresses is not seen",
                         "histories are introductions (message 246) of the honest sender and of the adversary followed by "
-                        "the mutation families; state kept outside Network.verified_peers (request caches, DHT routing "
-                        "table, circuits) is not part of the model"]
+                        "the mutation families; the scenario of the resident nodes (introductions, DHT store / find, "
+                        "store-peer / connect-peer) followed by the mutation families, again after 65 s; crowds of "
+                        "%d (quick) / %d (thorough) keys: a memory of parsed keys larger than that is not wrapped" % (
+                            CROWD["quick"], CROWD["thorough"]),
+                        "records about a key = Peer / Node objects and container entries filed under its serialized form, "
+                        "mid or node id, found by walking the overlay's object graph (endpoint, settings, tasks excluded); "
+                        "state that is not filed under a key (counters, unkeyed caches, circuits) is not compared",
+                        "what ANY datagram with the overlay's prefix does on arrival from a source address (Community."
+                        "on_packet refreshes last_response of the peer known at that address) is applied by a 22 byte "
+                        "datagram from the same address before each comparison: it is not an effect of the datagram's "
+                        "content; derived caches (Network.reverse_service_lookup) are refreshed through the read API",
+                        "the keys of a crowd share four abstract names: a change of one crowd key's entry by another "
+                        "crowd key of the same name is not seen",
+                        "in the quick tier three of the eight overlay classes get a crowd (the others with the next seeds) and the "
+                        "long crowd goes around a message that does not enter the verified-peer table"]
     if replay:
         return run_replay(ctx, replay)
     pool = JobRunner(min(16, os.cpu_count() or 2))
@@ -1159,7 +1567,7 @@ def _run(ctx, tier, seed, pool):
     import time as _time
     t0, timing = _time.monotonic(), {}
     # ---- specification level: the model, its deviations (negative controls), the protocol table
-    tp = ThreadPoolExecutor(4)
+    tp = ThreadPoolExecutor(5)
     tp2 = ThreadPoolExecutor(2)
     f_nc = tp.submit(run_tlc, "Auth.tla", "Auth_nocheck.cfg", coverage=False)      # also prints the protocol table
     f_mc = tp.submit(run_tlc, "Auth.tla", "Auth_mc.cfg" if tier == "quick" else "Auth_big.cfg", timeout=6000)
@@ -1171,9 +1579,13 @@ def _run(ctx, tier, seed, pool):
         f_extra = {"hist2": tp2.submit(run_tlc, "Auth.tla", "Auth_hist2.cfg", timeout=6000),      # two deliveries
                    "deep": tp2.submit(run_tlc, "Auth.tla", "Auth_deep.cfg", timeout=6000),
                    "splice2": tp2.submit(run_tlc, "Auth.tla", "Auth_splice2.cfg", timeout=6000)}
+    # crowds: several keys of the adversary's, an acquaintance, two deliveries; the key memory (kres) and the records
+    f_cr = tp.submit(run_tlc, "Auth.tla", "Auth_crowd.cfg", timeout=6000)
     f_pa = tp.submit(run_tlc, "Auth.tla", "Auth_partial.cfg", coverage=False)
     f_he = tp.submit(run_tlc, "Auth.tla", "Auth_hist_early.cfg", coverage=False)
     f_ht = tp.submit(run_tlc, "Auth.tla", "Auth_hist_trust.cfg", coverage=False)
+    f_hn = tp.submit(run_tlc, "Auth.tla", "Auth_hist_note.cfg", coverage=False)
+    f_cs = tp.submit(run_tlc, "Auth.tla", "Auth_crowd_stale.cfg", coverage=False)
     r_nc = f_nc.result()
     auth_table, prefix_table = read_tables(r_nc.output)
     timing["protocol_table_read"] = round(_time.monotonic() - t0, 1)
@@ -1187,6 +1599,17 @@ def _run(ctx, tier, seed, pool):
         ids = sorted(auth_table[cn])
         jobs += [(cn, tier, seed, auth_table, prefix_table, None, ids[i:i + chunk]) for i in range(0, len(ids), chunk)]
     jobs.sort(key=lambda j: -sum(1 for i in j[6] if i < 200))      # own messages are the longest: start them first
+    for ci, cn in enumerate(CLASS_NAMES):      # one crowd per overlay class, around another message id for every seed
+        if tier == "quick" and (ci + seed) % 4 not in (0, 1) or tier == "quick" and ci >= 4 and (ci + seed) % 4 == 1:
+            continue      # (quick: three of the eight classes, others with the next seed)
+        ids = sorted(auth_table[cn])
+        picks = [ids[(seed * 5 + ci * 3) % len(ids)]] if tier == "quick" else ids[ci % 2::2]
+        jobs += [(cn, tier, seed, auth_table, prefix_table, None, None, ("crowd",), {"crowd_first": mid}) for mid in picks]
+    jobs.sort(key=lambda j: 0 if "crowd" in (j[7] if len(j) > 7 else ()) else 1)      # the longest jobs first
+    n_main = len(jobs)
+    jobs.append(("DHTCommunity", "quick", seed, auth_table, prefix_table, "stalekeys", None, ("crowd",),
+                 {"crowd": 200, "crowd_first": 1}))
+    jobs.append(("DHTCommunity", "quick", seed, auth_table, prefix_table, "earlynote", [1, 3], ("resident",)))
     jobs.append(("DHTCommunity", "quick", seed, auth_table, prefix_table, "earlybook", [1], ("acquainted", "session")))
     jobs.append(("DHTCommunity", "quick", seed, auth_table, prefix_table, "anyknown", [1, 246], ("session",)))
     jobs.append(("DHTCommunity", "quick", seed, auth_table, prefix_table, "nocheck", [1, 3, 246], ("fresh",)))
@@ -1195,24 +1618,37 @@ def _run(ctx, tier, seed, pool):
     sabotaged = parts.pop()
     sabotaged_known = parts.pop()
     sabotaged_early = parts.pop()
+    sabotaged_note = parts.pop()
+    sabotaged_stale = parts.pop()
+    if len(parts) != n_main:
+        raise MachineryError("delivery jobs: %d results for %d jobs" % (len(parts), n_main))
     results = merge_parts(parts)
 
     r_mc, r_sp, r_pa, r_hi, r_he, r_ht = (f.result() for f in (f_mc, f_sp, f_pa, f_hi, f_he, f_ht))
+    r_cr, r_hn, r_cs = (f.result() for f in (f_cr, f_hn, f_cs))
     tp.shutdown()
     tp2.shutdown()
     timing["model_checking_done"] = round(_time.monotonic() - t0, 1)
     timing["tlc_wall"] = {k: round(r.wall, 1) for k, r in (("mc", r_mc), ("splice", r_sp), ("hist", r_hi), ("nocheck", r_nc),
-                                                            ("partial", r_pa), ("hist_early", r_he), ("hist_trust", r_ht))}
-    for tag, r in [("mc", r_mc), ("splice", r_sp), ("hist", r_hi)] + [(k, f.result()) for k, f in f_extra.items()]:
+                                                            ("partial", r_pa), ("hist_early", r_he), ("hist_trust", r_ht),
+                                                            ("crowd", r_cr), ("hist_note", r_hn), ("crowd_stale", r_cs))}
+    for tag, r in [("mc", r_mc), ("splice", r_sp), ("hist", r_hi), ("crowd", r_cr)] + \
+            [(k, f.result()) for k, f in f_extra.items()]:
         if not r.ok:
             raise MachineryError("Auth.tla (%s): TLC reports %s on the specification itself" % (tag, r.violated))
         ctx.add_tlc(tag, r)
     taken = {a: r_mc.coverage.get(a, (0, 0))[1] + r_sp.coverage.get(a, (0, 0))[1] for a in MC_ACTIONS}
     taken.update({"hist:" + a: r_hi.coverage.get(a, (0, 0))[1] for a in HIST_ACTIONS})
+    taken.update({"crowd:" + a: r_cr.coverage.get(a, (0, 0))[1] for a in CROWD_ACTIONS})
     if any(v == 0 for v in taken.values()):
         raise MachineryError("vacuous model: actions never taken: %s" % [a for a, v in taken.items() if v == 0])
     ctx.control("spec that updates the verified-peer entry of the carried key before the signature verdict violates "
                 "BookLegit / RejectInert", r_he.violated in ("BookLegit", "RejectInert"))
+    ctx.control("spec that refreshes what the node records about the carried key before the signature verdict violates "
+                "NotesLegit / RejectInert", r_hn.violated in ("NotesLegit", "RejectInert"))
+    ctx.control("spec with a memory of parsed keys whose index goes stale (a key parsed earlier resolves to one parsed "
+                "later) violates an invariant",
+                r_cs.violated in ("AuthOnly", "NoForgedVerified", "HonestAttribution", "BookLegit", "NotesLegit"))
     ctx.control("spec that accepts a signature of the key known at the source address violates an invariant",
                 r_ht.violated in ("AuthOnly", "NoForgedVerified", "HonestAttribution", "BookLegit"))
     ctx.control("spec with the validity check deleted violates an invariant",
@@ -1229,6 +1665,7 @@ def _run(ctx, tier, seed, pool):
         per_class[res["cname"]] = {k: st[k] for k in ("deliveries", "entered", "crashes", "captured", "synthesised",
                                                       "handwritten", "receiver_builds", "signed_but_not_in_table",
                                                       "session_deliveries")}
+        per_class[res["cname"]].update({k: st.get(k, 0) for k in ("resident_deliveries", "crowd_deliveries")})
         per_class[res["cname"]]["by_mutation"] = {k: {"deliveries": v[0], "handler_ran": v[1]}
                                                   for k, v in sorted(st["by_mutation"].items())}
     ctx.note("deliveries", per_class)
@@ -1242,9 +1679,10 @@ def _run(ctx, tier, seed, pool):
     ctl_pool = ThreadPoolExecutor(1)
     try:      # (on a tree that breaks the property the accepted events that the controls corrupt may not exist)
         controls = ctl_pool.submit(validate_controls,
-                                   control_traces(alltraces, auth_table, sabotaged, sabotaged_known, sabotaged_early))
-    except MachineryError as e:
-        controls = e
+                                   control_traces(alltraces, auth_table, sabotaged, sabotaged_known, sabotaged_early,
+                                                  sabotaged_note, sabotaged_stale))
+    except (MachineryError, StopIteration) as e:
+        controls = e if isinstance(e, MachineryError) else MachineryError("no trace to make a negative control from")
     live = list(range(len(alltraces)))
     rounds = 0
     while live and rounds < 5:
@@ -1259,7 +1697,7 @@ def _run(ctx, tier, seed, pool):
         res = results[ri]
         ev = alltraces[gi]["events"][l - 1] if r.violated == "TraceAccepted" else alltraces[gi]["events"][max(0, l - 2)]
         ex = example_at(res["examples"], ti, l if r.violated == "TraceAccepted" else l - 1)
-        if ev["k"] != "deliver":
+        if ev["k"] not in ("deliver", "probe"):
             raise MachineryError("AuthTrace rejects a %s event of the driver's own abstraction (%s, trace of %s id %s): %s" % (
                 ev["k"], r.violated, res["cname"], alltraces[gi]["msgid"], json.dumps(ev)[:600]))
         sig, what = describe(ex, ev, r.violated)
@@ -1288,6 +1726,8 @@ def _run(ctx, tier, seed, pool):
         # valid datagrams must reach their handlers, otherwise nothing above means anything
         for res in results:
             st = res["stats"]
+            if st.get("resident_stopped"):
+                raise MachineryError(st["resident_stopped"] + " - and no trace shows how they got there")
             if st["unregistered_auth_ids"]:
                 raise MachineryError("%s does not register the authenticated ids %s of the protocol table" % (
                     res["cname"], st["unregistered_auth_ids"]))
@@ -1306,9 +1746,49 @@ def _run(ctx, tier, seed, pool):
     return ctx.finish()
 
 
-def control_traces(alltraces, auth_table, sabotaged, sabotaged_known, sabotaged_early):
+def control_traces(alltraces, auth_table, sabotaged, sabotaged_known, sabotaged_early, sabotaged_note, sabotaged_stale):
     """-> [(what must be rejected, traces)] : sabotaged real code and corrupted copies of accepted traces"""
-    out = [("real code with EZPackOverlay._verify_signature forced to True is rejected", sabotaged["traces"]),
+    out = [("real code that refreshes a liveness metric of the carried key's peer before the signature verdict is "
+            "rejected (resident receiving nodes: everything recorded about a key is compared)",
+            [t for t in sabotaged_note["traces"] if t["state"] == "resident"]),
+           ("real code with a ring of 64 parsed keys whose index is never cleaned up is rejected in a crowd of 200 keys",
+            [t for t in sabotaged_stale["traces"] if t["state"] == "crowd"])]
+    # residents: a rejected forgery that changes what the node records about the key it names
+    resid = next((t for t in alltraces if t["state"] == "resident" and t["overlay"] == "DHTDiscoveryCommunity"), None) or \
+        next(t for t in alltraces if t["state"] == "resident")
+    bad = json.loads(json.dumps(resid))
+    for e in bad["events"]:
+        if e["k"] == "deliver" and not e["entered"] and e["d"]["key"] in ("h1", "h2", "h3") and not e["touched"]:
+            e["touched"] = [e["d"]["key"]]
+            del bad["events"][bad["events"].index(e) + 1:]
+            break
+    else:
+        raise MachineryError("no rejected forgery at a resident node to corrupt")
+    out.append(("resident trace in which a rejected forgery changes a record of the key it names is rejected", [bad]))
+    # crowds: a datagram naming the honest key under a signature of a key of the crowd runs the handler; a stale key
+    crowd = next(t for t in alltraces if t["state"] == "crowd")
+    bad = json.loads(json.dumps(crowd))
+    for e in bad["events"]:
+        if e["k"] == "deliver" and not e["entered"] and e["d"]["key"] in ("h1", "h2", "h3") \
+                and e["d"]["sig"]["kind"] == "sig" and e["d"]["sig"]["signer"].startswith("c"):
+            e["entered"], e["peer"] = True, e["d"]["key"]
+            del bad["events"][bad["events"].index(e) + 1:]
+            break
+    else:
+        raise MachineryError("no forgery signed by a key of the crowd to corrupt")
+    out.append(("crowd trace in which a datagram naming the honest key, signed by a key of the crowd, runs the handler "
+                "is rejected", [bad]))
+    bad = json.loads(json.dumps(crowd))
+    for e in bad["events"]:
+        if e["k"] == "probe" and e["kres"]:
+            e["kres"][0] = [e["kres"][0][0], "c1"]
+            del bad["events"][bad["events"].index(e) + 1:]
+            break
+    else:
+        raise MachineryError("no probe of the key vault to corrupt")
+    out.append(("crowd trace in which the serialized key of the honest sender resolves to a key of the crowd is "
+                "rejected", [bad]))
+    out += [("real code with EZPackOverlay._verify_signature forced to True is rejected", sabotaged["traces"]),
            ("real code that accepts a signature made by ANY verified peer is rejected in the sessions (history: the "
             "adversary introduced himself first)", [t for t in sabotaged_known["traces"] if t["state"] == "session"]),
            ("real code that touches the verified-peer entry of the carried key before the signature verdict is "
@@ -1368,6 +1848,32 @@ def run_replay(ctx, path):
         rep = json.load(f)["replay"]
     r0 = run_tlc("Auth.tla", "Auth_nocheck.cfg", coverage=False)
     auth_table, prefix_table = read_tables(r0.output)
+    if rep.get("state") in ("resident", "crowd"):
+        # these histories are made by the real code itself (a protocol scenario among four nodes / thousands of new
+        # keys): the scenario is run again (new keys, same seed) around the recorded message id
+        state, mid = rep["state"], rep["msgid"]
+        out = class_job((rep["overlay"], rep.get("tier") or ctx.tier, rep.get("seed") or 0, auth_table, prefix_table, None,
+                         [mid] if state == "resident" else None, (state,),
+                         {"crowd_first": mid, "crowd": rep.get("crowd")}))
+        from .. import vloop as _vl
+        _vl.uninstall()
+        ok, tid, l, r = validate(out["traces"], "replay", ctx)
+        ctx.evaluated(out["stats"]["deliveries"])
+        ctx.traces(len(out["traces"]))
+        print("replay %s msgid=%s state=%s: %d deliveries into one receiving node, %d traces -> %s" % (
+            rep["overlay"], mid, state, out["stats"]["deliveries"], len(out["traces"]),
+            "accepted by Auth.tla" if ok else "REJECTED by Auth.tla (%s, trace %s event %s)" % (r.violated, tid, l)))
+        if not ok:
+            if not isinstance(tid, int) or not isinstance(l, int):
+                raise MachineryError("replay: TLC reports %s without a trace position" % r.violated)
+            t = out["traces"][tid - 1]
+            ev = t["events"][min(l, len(t["events"])) - 1]
+            if ev["k"] not in ("deliver", "probe") and r.violated == "TraceAccepted":
+                raise MachineryError("replay: the driver's abstraction of the datagram is not a step of Auth.tla")
+            ex = example_at(out["examples"], tid - 1, l)
+            sig, what = describe(ex, ev, r.violated)
+            ctx.violation("replay:" + sig, what + " (scenario run again)", rep)
+        return ctx.finish()
     w = World()
     w.make_keys()
     w.keyname = {bytes.fromhex(k): v for k, v in rep["keys"].items()}     # the key names of the recorded run
